@@ -67,6 +67,20 @@ Definition anchor_of_str (s : string) : outcome anchor_opt :=
   else if String.eqb u "RENAME" then Ok KRename
   else Raise name_error.
 
+(* MultiDocModes.from_str and MergerConfig.get_multidoc_mode (mergerconfig.py:251-261):
+   `hasattr(self.args, "multi_doc_mode")` -- [None] is the absent attribute *)
+Inductive mdmode := MCondense | MAcross | MMatrix.
+
+Definition multidoc_of_str (s : string) : outcome mdmode :=
+  let u := upper_str s in
+  if String.eqb u "CONDENSE_ALL" then Ok MCondense
+  else if String.eqb u "MERGE_ACROSS" then Ok MAcross
+  else if String.eqb u "MATRIX_MERGE" then Ok MMatrix
+  else Raise name_error.
+
+Definition get_multidoc_mode (arg : option string) : outcome mdmode :=
+  match arg with Some s => multidoc_of_str s | None => Ok MCondense end.
+
 (* NodeCoords(node, parent, parentref) as far as MergerConfig looks at it *)
 Record coord := mkcoord {
   mc_node : N;                 (* id(node) *)
